@@ -217,18 +217,28 @@ fn run_generate(
 
     // Check cache to see if regeneration is needed (unless force is set)
     let discovered_structs = analyzer.get_discovered_structs();
+    // The dependency visualisation prints locations and counts the cache hashes do not cover
+    let visualization: Vec<String> = if config.should_visualize_deps() {
+        vec![
+            analyzer.visualize_dependencies(&commands),
+            analyzer.generate_dot_graph(&commands),
+        ]
+    } else {
+        Vec::new()
+    };
     let needs_regeneration = if config.should_force() {
         if config.is_verbose() {
             println!("🔄 Force flag set, regenerating bindings");
         }
         true
     } else {
-        GenerationCache::needs_regeneration_with_events(
+        GenerationCache::needs_regeneration_with_visualization(
             &config.output_path,
             &commands,
             discovered_structs,
             analyzer.get_discovered_events(),
             &config,
+            &visualization,
         )
         .unwrap_or(true) // On error, assume regeneration is needed
     };
@@ -288,6 +298,7 @@ fn run_generate(
         analyzer.get_discovered_events(),
         &config,
     )?
+    .with_visualization(&visualization)
     .with_generated_files(&vouched_files);
     if let Err(e) = cache.save(&config.output_path) {
         eprintln!("Warning: Failed to save generation cache: {}", e);
